@@ -29,7 +29,7 @@ META = dict(
                  'determinism in the seed: the RNG stub is the only source of nondeterminism (structural)'],
 )
 
-_RE_ERR = re.compile(r'error: (.*) when calling (\w+)\((.*)\)(?: \(which returns (.*)\))?\s*$')
+_RE_ERR = re.compile(r'error: (.*) when calling (\w+)\((.*?)\)(?: \(which returns (.*)\))?\s*$')
 
 
 def _crosshair(func, timeout):
@@ -82,6 +82,11 @@ def replay(r):
     return crystals.replay(r)
   sys.path.insert(0, ROOT)
   from vf.e2 import c17_harness as h
+  import ast
+  try:
+    ast.literal_eval('(%s,)' % rp['args'])
+  except (SyntaxError, ValueError) as e:
+    return dict(reproduced=False, detail=dict(call='%s(%s)' % (rp['func'], rp['args']), harness='cannot parse the CrossHair counterexample: %r' % (e,)))
   try:
     val = eval('h.%s(%s)' % (rp['func'], rp['args']), {'h': h})
     return dict(reproduced=val is not True, detail=dict(call='%s(%s)' % (rp['func'], rp['args']), returned=repr(val)))
